@@ -21,6 +21,12 @@ BUILT = {
  "C16": dict(tech=TV + " of request-bound trees (TraceCost.tla)",
    text="One event per node of random request-bound trees: TLC checks service_needed = cost(number_arrivals), job_cost_iter sums, aggregate sums, least_wcet_in_interval, service_needed_by_n_jobs (monotone, bounded, saturating, n largest) and the per-component variant.",
    note="Trees of depth<=2 over all arrival x cost kinds and Box/Rc/&/Aggregate/Slice wrappers."),
+ "C08": dict(tech=TV + " against the definition Lfp of FixedPoint.tla; Kleene iteration model-checked against Lfp (MCFixedPoint)",
+   text="search / search_with_offset / max_response_time are called on table-defined monotone workloads for every small (workload, supply, offset, limit) of the model-checked box and on random larger tables, with dedicated, periodic, constrained and user-defined supplies (specialised and default service_time); TLC accepts a call iff it returned Lfp (least r with sbf(off+r) >= w(max(r,1))) or the divergence error with (offset, limit) exactly when no such r <= limit exists.",
+   note="Premise of C08: offsets inside the busy window, monotone workloads, 1-Lipschitz supplies."),
+ "C06": dict(tech=TV + " against the definitional analyses of Analyses.tla (every offset, linear-scan fixed points)",
+   text="Each of the nine dedicated-processor analyses is called on an enumerated box of task pairs and on seeded random inputs (jitter, bursts, conversions, non-scalar costs, blocking, segments, limits around the busy-window length); TLC re-evaluates the published definition naively over the request-bound tables recorded from the same objects (L by linear scan, every offset A in [0,L), max) and accepts iff value and Ok/Err agree.",
+   note="Domain W: the task under analysis releases at least one job. Known finding F9 (ArrivalCurvePrefix) listed."),
 }
 m = {"version": 1, "setup_cmd": "bin/vf setup",
      "hooks": {"guard": "--cfg rta_verif",
